@@ -27,7 +27,7 @@ type edit struct {
 
 func main() {
 	dir := flag.String("dir", "", "scratch tree")
-	mode := flag.String("mode", "locals", "locals|funcs|reorder|swapeq|lencmp")
+	mode := flag.String("mode", "locals", "locals|funcs|reorder|swapeq|lencmp|logparams")
 	flag.Parse()
 	cfg := &packages.Config{Mode: packages.LoadSyntax, Dir: *dir, Tests: false}
 	pkgs, err := packages.Load(cfg, "./...")
@@ -167,6 +167,46 @@ func main() {
 					edits = append(edits, edit{tf.Offset(be.OpPos), tf.Offset(be.OpPos) + len(be.Op.String()), op}, edit{tf.Offset(lit.Pos()), tf.Offset(lit.End()), val})
 					return true
 				})
+			case "logparams":
+				// every function formats its parameters once (as a debug log would): `_ = fmt.Sprint(p1, p2, ...)`
+				hasFmt := false
+				for _, im := range f.Imports {
+					if im.Path.Value == `"fmt"` && (im.Name == nil || im.Name.Name == "fmt") {
+						hasFmt = true
+					}
+				}
+				nIns := 0
+				for _, d := range f.Decls {
+					fd, ok := d.(*ast.FuncDecl)
+					if !ok || fd.Body == nil {
+						continue
+					}
+					var names []string
+					collect := func(fl *ast.FieldList) {
+						if fl == nil {
+							return
+						}
+						for _, fld := range fl.List {
+							for _, n := range fld.Names {
+								if n.Name != "_" {
+									names = append(names, n.Name)
+								}
+							}
+						}
+					}
+					collect(fd.Recv)
+					collect(fd.Type.Params)
+					if len(names) == 0 {
+						continue
+					}
+					off := tf.Offset(fd.Body.Lbrace) + 1
+					edits = append(edits, edit{off, off, "\n\t_ = fmt.Sprint(" + strings.Join(names, ", ") + ")"})
+					nIns++
+				}
+				if nIns > 0 && !hasFmt {
+					off := tf.Offset(f.Name.End())
+					edits = append(edits, edit{off, off, "\n\nimport \"fmt\"\n"})
+				}
 			case "reorder":
 				var funcs []edit
 				for _, d := range f.Decls {
